@@ -216,12 +216,30 @@ class SrcGen:
         if r < 0.88:  # buffer access kept in bounds by a final modulo
             m = rng.choice([8, 16, 64])
             e = ("b", "%", eg.expr(vs, cfg, rng.choice([0, 1, 2])), ("c", m))
+            # data-level constants (R): exact dyadic quotients, folded by DoSimplify.cfold as real division
+            k = rng.choice(["1.0", "1.0", "3.0 / 2.0", "1.0 / 4.0", "5.0 / 2.0 * 2.0", "(7.0 - 4.0) / 8.0"])
             if rng.random() < 0.5:
-                return ["%sx[%s] = 1.0" % (pad, show(e))]
+                return ["%sx[%s] = %s" % (pad, show(e), k)]
             e2 = ("b", "%", eg.expr(vs, cfg, rng.choice([0, 1])), ("c", 64))
-            return ["%sx[%s] += y[%s] * 2.0" % (pad, show(e), show(e2))]
+            return ["%sx[%s] += y[%s] * %s" % (pad, show(e), show(e2), rng.choice(["2.0", "2.0", "(3.0 / 2.0)", "0.5"]))]
         if r < 0.92 and toplevel and cfg:  # configuration write (only legal outside loops)
-            return ["%sCfg.%s = %s" % (pad, rng.choice(cfg), show(eg.expr(vs, [], 1)))]
+            f = rng.choice(cfg)
+            if rng.random() < 0.5:
+                return ["%sCfg.%s = %s" % (pad, f, show(eg.expr(vs, [], 1)))]
+            # a guard on a configuration field whose body overwrites the field and then reads it
+            c0 = rng.choice([0, 0, 1, 2])
+            g = "Cfg.%s == %d" % (f, c0) if rng.random() < 0.7 else "%d == Cfg.%s + 0" % (c0, f)
+            return ["%sif %s:" % (pad, g),
+                    "%s    Cfg.%s = %s" % (pad, f, show(eg.expr(vs, [], 1))),
+                    "%s    sink2(Cfg.%s, %s)" % (pad, f, show(eg.expr(vs, cfg, 1)))]
+        if r < 0.935:  # window statement (never accessed afterwards; its coordinates are index expressions)
+            state["fresh"] += 1
+            lo = ("b", "%", eg.expr(vs, cfg, rng.choice([0, 1])), ("c", 8))
+            if rng.random() < 0.5:
+                hi = ("b", "+", lo, ("c", rng.choice([1, 2, 4])))
+            else:
+                hi = ("b", "+", ("c", rng.choice([8, 16])), ("b", "%", eg.expr(vs, [], 1), ("c", 4)))
+            return ["%sw%d = x[%s:%s]" % (pad, state["fresh"], show(lo), show(hi))]
         if r < 0.96 and state["sizes"]:  # allocation with a size expression
             n = rng.choice(state["sizes"])
             sh = rng.choice(["%s + 1" % n, "2 * %s + 2" % n, "%s * 4 / 2" % n, "%s + 3 - 1" % n,
